@@ -287,12 +287,13 @@ func (v *FnVC) binop(x *ssa.BinOp) {
 		}
 		s = fmt.Sprintf("(+ %s %s)", a.S, b.S)
 		if m := modulus(x.Type()); m != "" {
-			s = fmt.Sprintf("(mod %s %s)", s, m)
+			// operands are in [0, m): wrap-around without mod (linear)
+			s = fmt.Sprintf("(ite (< %s %s) %s (- %s %s))", s, m, s, s, m)
 		}
 	case token.SUB:
 		s = fmt.Sprintf("(- %s %s)", a.S, b.S)
 		if m := modulus(x.Type()); m != "" {
-			s = fmt.Sprintf("(mod %s %s)", s, m)
+			s = fmt.Sprintf("(ite (>= %s 0) %s (+ %s %s))", s, s, s, m)
 		}
 	case token.MUL:
 		s = fmt.Sprintf("(* %s %s)", a.S, b.S)
